@@ -19,7 +19,8 @@ RULE = ("grammar of invalid values per parameter of every public method - identi
         "stream, list}, format_id {'  ', '\\t'}, object_metadata {None, dict, tuple}, unknown pids (never seen, or with metadata but no object) for "
         "retrieve / delete / get_hex_digest / retrieve_metadata - one bad parameter with all others valid, then all pairs "
         "of bad parameters, each issued from an empty store and from a populated store (objects shared by pids, "
-        "metadata, an unreferenced object). Plus the successful read-only calls. Oracle: exception class in the "
+        "metadata, an unreferenced object); thorough: up to 8 values per parameter in pairs, all triples of 3 values, and "
+        "two more start states (depth 1 / width 1 / MD5 populated store; a store with a pid bound to a missing object). Plus the successful read-only calls. Oracle: exception class in the "
         "documented set AND the snapshot (relative path -> size, sha256; directory set) identical before/after. "
         "distinct_nontrivial = distinct (method, bad-parameter positions and values, state) cases.")
 ASSUMPTIONS = ["'' as a format id is excluded (not a documented value)",
@@ -35,15 +36,16 @@ BAD_FMT = ["  ", "\t", "\n"]
 
 
 def shards(tier, seed):
-    cases = build_cases()
-    return [(c, s) for c, s in zip(chunk(cases, ncpu()), split_seeds(seed * 1000 + 17, ncpu()))]
+    cases = build_cases(tier)
+    k = ncpu() if tier == "quick" else ncpu() * 2
+    return [(c, s, tier) for c, s in zip(chunk(cases, k), split_seeds(seed * 1000 + 17, k))]
 
 
 def min_required(tier):
     return {"rejected_calls_snapshotted": 800, "readonly_calls_snapshotted": 40}
 
 
-def build_cases():
+def build_cases(tier="quick"):
     """Each case: (method, {param: ('bad', value) | 'good'}, label). Built symbolically; concrete good values are
     filled in by the runner (they depend on scratch paths)."""
     P = {
@@ -67,14 +69,21 @@ def build_cases():
         for n in names:
             for v in params[n]:
                 cases.append((m, {n: v}))
+        width = 4 if tier == "quick" else 8
         for a, b in itertools.combinations(names, 2):
-            for va in params[a][:4]:
-                for vb in params[b][:4]:
+            for va in params[a][:width]:
+                for vb in params[b][:width]:
                     cases.append((m, {a: va, b: vb}))
+        if tier == "thorough":
+            for a, b, c in itertools.combinations(names, 3):
+                for va in params[a][:3]:
+                    for vb in params[b][:3]:
+                        for vc in params[c][:3]:
+                            cases.append((m, {a: va, b: vb, c: vc}))
     return cases
 
 
-def run_shard(cases, sub_seed):
+def run_shard(cases, sub_seed, tier="quick"):
     res = ShardResult()
     ns = load_repo()
     OM = ns["ObjectMetadata"]
@@ -88,10 +97,18 @@ def run_shard(cases, sub_seed):
         open(pdoc, "wb").write(b"<doc/>")
         import hashlib
         states = {}
-        for state in ("empty", "populated"):
+        state_names = ("empty", "populated") if tier == "quick" else ("empty", "populated", "populated-md5-1x1", "irregular")
+        for state in state_names:
             root = os.path.join(scratch, "store_" + state)
-            st = open_store(root)
-            if state == "populated":
+            st = open_store(root, 1, 1, "MD5") if state == "populated-md5-1x1" else open_store(root)
+            if state == "irregular":
+                # states the public API itself can create: a pid bound to a cid without object, an unreferenced object
+                st.store_object("k1", pa)
+                st.tag_object("dangling", hashlib.sha256(b"never stored").hexdigest())
+                st.store_object(None, pb)
+                st.store_metadata("nobj", pdoc)
+                st.store_metadata("k1", pdoc)
+            if state in ("populated", "populated-md5-1x1"):
                 st.store_object("k1", pa)
                 st.store_object("k2", pa)
                 st.store_object("k3", pb)
